@@ -325,3 +325,13 @@ func Run(t *testing.T, entries map[string]func()) {
 		}
 	}
 }
+
+// BytesOrNil is Bytes, but a zero-length result is nil or empty (non-nil) by
+// a symbolic choice: the two are different index keys in some code paths.
+func BytesOrNil(tag string, maxLen int) []byte {
+	b := Bytes(tag, maxLen)
+	if len(b) == 0 && Bool(tag+".nil") {
+		return nil
+	}
+	return b
+}
